@@ -166,8 +166,12 @@ def value (it : IndexIterator V) : Option V := it.top.bind Cur.value
 def rewind (it : IndexIterator V) : IndexIterator V :=
   { it with heap := it.heap.map Cur.rewind ++ it.oldItems.map Cur.rewind, oldItems := [] }
 
+/-- `Seek` never moves backwards: nothing happens on an exhausted iterator, nor when the target lies
+    before the current key in iteration order (`cmp := bytes.Compare(key, items[0].key())`, negated
+    when reversed, `cmp < 0`); otherwise every cursor in the heap is re-seeked -/
 def seek (k : Key) (it : IndexIterator V) : IndexIterator V :=
   if !it.valid then it
+  else if before it.reverse k (it.key.getD ByteArray.empty) then it
   else
     let items := it.heap.map (Cur.seek k)
     { it with heap := items.filter Cur.valid,
@@ -303,7 +307,11 @@ def newIndex (rev : Bool) (idx : List (Key × V)) : Abs V :=
 
 def rewind (a : Abs V) : Abs V := { a with i := 0 }
 def next (a : Abs V) : Abs V := if a.i < a.A.length then { a with i := a.i + 1 } else a
-def seek (k : Key) (a : Abs V) : Abs V := { a with i := lowerBound a.reverse k a.A }
+/-- `Seek` is forward-only: it moves to the first item `≥ k` (`≤ k` reversed) unless that lies behind
+    the cursor; on an exhausted cursor it does nothing -/
+def seek (k : Key) (a : Abs V) : Abs V :=
+  if a.i < a.A.length ∧ a.i ≤ lowerBound a.reverse k a.A then { a with i := lowerBound a.reverse k a.A }
+  else a
 def valid (a : Abs V) : Bool := a.i < a.A.length
 def key (a : Abs V) : Option Key := a.A[a.i]?.map (·.1)
 def value (a : Abs V) : Option V := a.A[a.i]?.map (·.2)
@@ -320,15 +328,33 @@ def trace (a : Abs V) : List Call → List (Obs V)
 
 def run (a : Abs V) (calls : List Call) : Abs V := calls.foldl Abs.step a
 
-/-- The claimed class of call sequences: every `Seek` target lies at or ahead of the cursor in
-    iteration order, i.e. its lower-bound index is not below the current index.  (On a fresh or
-    just rewound iterator `i = 0`, so every target is allowed there.) -/
+/-! ### the unrestricted positioning `seekTo` and the call sequences on which `Seek` is just that
+
+`seekTo` is the absolute lower bound (what `Abs.seek` was before `Seek` became forward-only).
+`admissible` singles out the call sequences whose every `Seek` target lies at or ahead of the cursor;
+on those, `seek` and `seekTo` coincide (`Proofs/ShardIter.lean`, `Abs.trace_eq_traceTo`), in
+particular `Seek k` on a fresh or just rewound iterator lands on the first item `≥ k`. -/
+
+def seekTo (k : Key) (a : Abs V) : Abs V := { a with i := lowerBound a.reverse k a.A }
+
+def stepTo (a : Abs V) : Call → Abs V
+  | .rewind => a.rewind
+  | .next => a.next
+  | .seek k => a.seekTo k
+
+def traceTo (a : Abs V) : List Call → List (Obs V)
+  | [] => [a.obs]
+  | c :: cs => a.obs :: (a.stepTo c).traceTo cs
+
+/-- every `Seek` target lies at or ahead of the cursor in iteration order, i.e. its lower-bound
+    index is not below the current index.  (On a fresh or just rewound iterator `i = 0`, so every
+    target is allowed there.) -/
 def admissible (a : Abs V) : List Call → Bool
   | [] => true
   | c :: cs =>
     (match c with
      | .seek k => decide (a.i ≤ lowerBound a.reverse k a.A)
-     | _ => true) && (a.step c).admissible cs
+     | _ => true) && (a.stepTo c).admissible cs
 
 end Abs
 
